@@ -34,6 +34,9 @@ type schedBehaviour struct {
 		T int   `json:"t"`
 		O []any `json:"o"`
 	} `json:"steps"`
+	// ArmOnDeath: every scripted actor arms a Once job for itself while it handles the OnKilled that names itself (the last
+	// user code of an incarnation, on termination and on restart alike) - a job that must never fire
+	ArmOnDeath bool `json:"arm_on_death,omitempty"`
 }
 
 type schedTok struct {
@@ -54,15 +57,17 @@ type schedCmd struct {
 type schedKill struct{ Name string }
 
 type schedExec struct {
-	mu      sync.Mutex
-	start   time.Time
-	events  []map[string]any
-	refs    map[string]vivid.ActorRef
-	refsCh  chan struct{}
-	names   []string
-	failAt  map[string]int
-	killAt  map[string]int
-	arrived map[int]int
+	mu         sync.Mutex
+	start      time.Time
+	events     []map[string]any
+	refs       map[string]vivid.ActorRef
+	refsCh     chan struct{}
+	names      []string
+	failAt     map[string]int
+	killAt     map[string]int
+	arrived    map[int]int
+	armOnDeath bool
+	deathTok   int
 }
 
 func (x *schedExec) ms() int { return int(time.Since(x.start) / time.Millisecond) }
@@ -90,6 +95,18 @@ func (a *schedChild) OnReceive(ctx vivid.ActorContext) {
 			tb := x.failAt[a.name]
 			x.mu.Unlock()
 			x.ev(map[string]any{"e": "Stop", "a": a.name, "r": "*", "s": "restart", "tb": tb, "t": x.ms()})
+		}
+	case *vivid.OnKilled:
+		if x.armOnDeath && m.Ref != nil && m.Ref.Equals(ctx.Ref()) {
+			x.mu.Lock()
+			x.deathTok++
+			tok := 9000 + x.deathTok
+			x.mu.Unlock()
+			ref := fmt.Sprintf("on-death-%d", tok)
+			tb := x.ms()
+			if err := ctx.Scheduler().Once(ctx.Ref(), schedTick, schedTok{X: x, Tok: tok, Pad: padFor(tok)}, vivid.WithSchedulerReference(ref)); err == nil {
+				x.ev(map[string]any{"e": "Sched", "a": a.name, "r": ref, "x": a.name, "k": "once", "d": int(schedTick / time.Millisecond), "m": tok, "tb": tb, "t": x.ms()})
+			}
 		}
 	case schedTok:
 		if m.X != x {
@@ -250,7 +267,7 @@ func installSchedHook() {
 // runSchedBehaviour replays one TLC behaviour in real time; healthy is false when the canary timer was late.
 func runSchedBehaviour(b *schedBehaviour, remoteStall bool) (events []map[string]any, healthy bool, modelArrivals, realArrivals map[int]int, err error) {
 	installSchedHook()
-	x := &schedExec{refs: map[string]vivid.ActorRef{}, refsCh: make(chan struct{}), failAt: map[string]int{}, killAt: map[string]int{}, arrived: map[int]int{}}
+	x := &schedExec{refs: map[string]vivid.ActorRef{}, refsCh: make(chan struct{}), failAt: map[string]int{}, killAt: map[string]int{}, arrived: map[int]int{}, armOnDeath: b.ArmOnDeath}
 	for _, p := range b.Paths {
 		x.names = append(x.names, strings.TrimPrefix(p, "/"))
 	}
@@ -444,6 +461,7 @@ func checkC20(c *core.Ctx) {
 			go func(bi int, b *schedBehaviour) {
 				defer wg.Done()
 				defer func() { <-sem }()
+				b.ArmOnDeath = bi%3 == 1
 				ev, healthy, model, real, err := runSchedBehaviour(b, false)
 				mu.Lock()
 				defer mu.Unlock()
